@@ -70,6 +70,8 @@ impl Palette {
                     }
                 } else if index >= nb_colors {
                     let index = index - nb_colors;
+                    // `(1 << bit_depth) - 1` and its multiples don't fit in `i32` for large bit depths.
+                    let max_value = (1i64 << bit_depth) - 1;
                     if index < 64 {
                         for (c, sample) in channels_it.enumerate() {
                             // Implicit entries are defined only for the first three channels.
@@ -78,10 +80,9 @@ impl Palette {
                                 continue;
                             }
 
-                            *sample = S::from_i32(
-                                ((index >> (2 * c)) % 4) * ((1i32 << bit_depth) - 1) / 4
-                                    + (1i32 << bit_depth.saturating_sub(3)),
-                            );
+                            let value = ((index >> (2 * c)) % 4) as i64 * max_value / 4
+                                + (1i64 << bit_depth.saturating_sub(3));
+                            *sample = S::from_i32(value as i32);
                         }
                     } else {
                         let mut index = index - 64;
@@ -91,7 +92,8 @@ impl Palette {
                                 continue;
                             }
 
-                            *sample = S::from_i32((index % 5) * ((1i32 << bit_depth) - 1) / 4);
+                            let value = (index % 5) as i64 * max_value / 4;
+                            *sample = S::from_i32(value as i32);
                             index /= 5;
                         }
                     }
